@@ -37,6 +37,7 @@ class PNode(PBase):
     deep = Property(Int, observe="child.children.items.value")
     tsum = Property(Int, observe="table.items.value")
     gsum = Property(Int, observe="group.items.value")
+    ssum = Property(Int, observe="shelf.items.items.value")
     vplus = Property(Int, observe="value")
     unc = Property(Int, observe="child.value")
     two = Property(Int, observe="child.child.value")
@@ -62,6 +63,11 @@ class PNode(PBase):
         return sum(c.value for c in self.group)
 
     @cached_property
+    def _get_ssum(self):
+        _point(self, "ssum")
+        return sum(c.value for row in self.shelf.values() for c in row)
+
+    @cached_property
     def _get_vplus(self):
         _point(self, "vplus")
         return self.value + 1
@@ -73,6 +79,7 @@ class PNode(PBase):
         self.total
         self.tsum
         self.gsum
+        self.ssum
 
     def _child_changed(self, new):
         self.deep
@@ -110,6 +117,7 @@ PROPS = {
     "deep": (True, [[["t", "child", T], ["t", "children", T], ["items", None, T], ["t", "value", T]]]),
     "tsum": (True, [[["t", "table", T], ["items", None, T], ["t", "value", T]]]),
     "gsum": (True, [[["t", "group", T], ["items", None, T], ["t", "value", T]]]),
+    "ssum": (True, [[["t", "shelf", T], ["items", None, T], ["items", None, T], ["t", "value", T]]]),
     "vplus": (True, [[["t", "value", T]]]),
     "unc": (False, [[["t", "child", T], ["t", "value", T]]]),
     "two": (False, [[["t", "child", T], ["t", "child", T], ["t", "value", T]]]),
@@ -145,6 +153,9 @@ def model_value(m, name):
     if name == "gsum":
         g = m.group
         return sum(mval(x) for x in g) if g is not G.UNSET else 0
+    if name == "ssum":
+        t = m.shelf
+        return sum(mval(x) for row in t.values() for x in row) if t is not G.UNSET else 0
     if name == "vplus":
         return mval(m) + 1
     if name == "unc":
